@@ -119,7 +119,7 @@ def run(ctx: common.Run):
         'Lean Float sin/cos/sqrt/exp evaluate the elementary functions (execution vehicle for the comparison only)',
     ]
     extract_eigen(ctx, cirq)
-    ok, failing = ctx.lean(['CirqVerif.Props.C03', 'CirqVerif.Props.C03b'] + ctx.obligation_modules)
+    ok, failing = ctx.lean(['CirqVerif.Props.C03', 'CirqVerif.Props.C03b', 'NonVacuity.ComplexModel'] + ctx.obligation_modules)
     if not ok:
         search_eigen_failure(ctx, cirq, failing)
         return
